@@ -6,6 +6,7 @@ package main
 // store of the real SwapService are dumped and compared with the model.
 
 import (
+	"context"
 	"encoding/hex"
 	"encoding/json"
 	"errors"
@@ -20,6 +21,7 @@ import (
 
 	"github.com/btcsuite/btcd/btcec/v2"
 	"github.com/elementsproject/peerswap/messages"
+	"github.com/elementsproject/peerswap/policy"
 	"github.com/elementsproject/peerswap/premium"
 	"github.com/elementsproject/peerswap/swap"
 	"go.etcd.io/bbolt"
@@ -370,6 +372,18 @@ var svcDirectedScenarios = []svcDirected{
 	{[]string{"req_out c0 p0", "req_out_reuse_sendfail c1 p0", "req_in_reuse_sendfail c2 p1"}},
 	{[]string{"req_out_bad c0 p0", "req_in_reuse_sendfail c1 p0"}},
 	{[]string{"req_in c0 p0", "restart_norecover", "req_in_reuse_sendfail c1 p0"}},
+	// the minimum amount is not a multiple of 1000 msat: amounts right at floor(min/1000) sat
+	{[]string{"minedge", "req_in_minamt c0 p0", "req_out_minamt c1 p0", "req_in_minamt c2 p1", "req_out_minamt c3 p1"}},
+	// distinct premium rates per asset / operation / peer; acceptable premium right at the premium due
+	{[]string{"rates", "req_in_limit c0 p0", "req_out_limit c1 p0", "req_in_limit c2 p1", "req_out_limit c3 p1"}},
+	{[]string{"rates", "req_in_limit c0 p1", "req_out_limit c1 p1", "req_in_limit c2 p0", "req_out_limit c3 p0"}},
+	// a REAL policy.Policy read from a file: peers on the allowlist AND the suspicious list, on one of them, on neither
+	{[]string{"realpolicy both", "req_in c0 p0", "req_out c1 p1"}},
+	{[]string{"realpolicy both_acceptall", "req_in c0 p0", "req_out c1 p1"}},
+	{[]string{"realpolicy allow", "req_in c0 p0", "req_out c1 p1"}},
+	{[]string{"realpolicy susp_acceptall", "req_in c0 p0", "req_out c1 p1"}},
+	{[]string{"realpolicy none", "req_in c0 p0", "req_out c1 p1"}},
+	{[]string{"realpolicy acceptall", "req_in c0 p0", "req_out c1 p1"}},
 	// recovery of a stored swap fails (store write refused): the swap keeps its channel
 	{[]string{"req_out c0 p0", "restart_fail", "req_in c0 p1", "rpc_out c0 p1"}},
 	{[]string{"rpc_in c0: p0", "restart_fail", "req_out c0 p0"}},
@@ -400,6 +414,8 @@ func runSvcScenario(seed uint64, idx int, dbpath string) (*svcScen, error) {
 			env.MinAmountMsat = 2_000_000_000
 		case 6:
 			env.BtcNetwork = "signet"
+		case 7, 8:
+			env.MinAmountMsat = uint64(r.Range(100, 3000))*1000000 + uint64(r.Range(1, 999))
 		}
 	}
 	node, err := newNode(env, db)
@@ -423,11 +439,17 @@ func runSvcScenario(seed uint64, idx int, dbpath string) (*svcScen, error) {
 		}
 		return sc, nil
 	}
+	if r.Chance(40) {
+		sc.opNamed("rates")
+	}
+	if r.Chance(20) {
+		sc.opNamed("realpolicy " + PickS(r, []string{"both", "both_acceptall", "allow", "susp_acceptall", "none", "acceptall"}))
+	}
 	nops := 3 + r.Intn(6)
 	pool := []string{"rpc_out", "rpc_in", "req_out", "req_in", "req_out_reuse", "req_in_reuse", "cancel_own", "cancel_foreign", "coop_foreign",
 		"otb_foreign", "cancel_unknown", "in_agreement", "out_agreement", "otb_early", "coop_early", "restart", "restart_norecover",
 		"req_in_lowcap", "req_out_lowcap", "req_in_limit", "req_out_limit", "req_out_bad", "req_in_wrap", "req_out_wrap",
-		"otb_own", "coop_own", "out_agreement_foreign", "in_agreement_foreign", "req_out_reuse_sendfail", "req_in_reuse_sendfail", "restart_fail"}
+		"otb_own", "coop_own", "out_agreement_foreign", "in_agreement_foreign", "req_out_reuse_sendfail", "req_in_reuse_sendfail", "restart_fail", "req_in_minamt", "req_out_minamt"}
 	for i := 0; i < nops; i++ {
 		o := PickS(r, pool)
 		c := fmt.Sprintf("c%d", r.Intn(3))
@@ -551,6 +573,12 @@ func (sc *svcScen) opNamed(spec string) {
 			}
 			sc.env.MinAmountMsat = 0
 		}
+		if strings.HasSuffix(name, "_minamt") {
+			amount = sc.env.MinAmountMsat/1000 + uint64(r.Range(-1, 1))
+			if r.Chance(50) {
+				amount = sc.env.MinAmountMsat / 1000
+			}
+		}
 		if strings.HasSuffix(name, "_lowcap") {
 			v := amount*1000 + uint64(r.Range(-1, 1))
 			if out {
@@ -571,6 +599,56 @@ func (sc *svcScen) opNamed(spec string) {
 			msg := &swap.SwapInRequestMessage{ProtocolVersion: version, SwapId: id, Asset: asset, Network: network, Scid: ch, Amount: amount, Pubkey: pub, PremiumLimit: limit}
 			sc.deliverMsg(name, peer, msg, messages.MESSAGETYPE_SWAPINREQUEST, in, id.String())
 		}
+	case name == "minedge" || name == "rates" || name == "realpolicy":
+		// configuration changes between operations (not compared; the node is adopted as is)
+		switch name {
+		case "minedge":
+			sc.env.MinAmountMsat = uint64(r.Range(100, 3000))*1000000 + uint64(r.Range(1, 999))
+		case "rates":
+			// every (asset, operation) default and the rates of peer p0 get their own value; swap-in above and
+			// below swap-out
+			ctx := context.Background()
+			for _, at := range []premium.AssetType{premium.BTC, premium.LBTC} {
+				for _, op := range []premium.OperationType{premium.SwapIn, premium.SwapOut} {
+					if rate, err := premium.NewPremiumRate(at, op, premium.NewPPM(r.Range(0, 40000))); err == nil {
+						sc.node.ps.SetDefaultRate(ctx, rate)
+					}
+					if rate, err := premium.NewPremiumRate(at, op, premium.NewPPM(r.Range(0, 40000))); err == nil && r.Chance(70) {
+						sc.node.ps.SetRate(ctx, sc.peers[0], rate)
+					}
+				}
+			}
+		case "realpolicy":
+			mode := "both"
+			if len(f) > 1 {
+				mode = f[1]
+			}
+			acceptAll := strings.Contains(mode, "acceptall")
+			inAllow := strings.HasPrefix(mode, "both") || strings.HasPrefix(mode, "allow")
+			inSusp := strings.HasPrefix(mode, "both") || strings.HasPrefix(mode, "susp")
+			var b strings.Builder
+			fmt.Fprintf(&b, "accept_all_peers=%v\n", acceptAll)
+			for _, pk := range sc.peers {
+				if inAllow {
+					fmt.Fprintf(&b, "allowlisted_peers=%s\n", pk)
+				}
+				if inSusp {
+					fmt.Fprintf(&b, "suspicious_peers=%s\n", pk)
+				}
+			}
+			path := filepath.Join(os.TempDir(), fmt.Sprintf("psh-svc-policy-%d-%d.conf", os.Getpid(), r.Intn(1<<30)))
+			if err := os.WriteFile(path, []byte(b.String()), 0o600); err == nil {
+				if pol, err := policy.CreateFromFile(path); err == nil {
+					sc.env.realPol = pol
+					// ground truth by the meaning of the lists, not by asking the policy
+					sc.env.PeerAllowed = acceptAll || inAllow
+					sc.env.PeerSuspicious = inSusp
+				}
+				os.Remove(path)
+			}
+		}
+		sc.ops = append(sc.ops, svcOp{Kind: name, Term: "SvReset", World: sc.svcWorldTerm(svcWorldIn{canSpend: true}, nil), Result: "SOk", Node: sc.nodeTerm(),
+			JS: map[string]interface{}{"op": spec, "active": sc.node.svc.VerifActiveIds()}})
 	case name == "rpc_out_blocked":
 		sc.runBlockedRPC(ch, peer, amount)
 	case name == "restart" || name == "restart_norecover" || name == "restart_fail":
